@@ -1,7 +1,34 @@
 #!/usr/bin/env python3
 """C09 lists: B1 tours of MC_List + B2 random list programmes (TraceKs.tla)."""
-import common, ks
+import json, os, subprocess
+import common, ks, conc
 tier = common.tier_arg()
+
+
+def blocking(v, cov, tier, seed):
+    """Blocking pops on the real clock (harness/cmd/blockpop): promptness bounds are checked by the driver, exactly-once /
+    order / nothing-left by TLC on the recorded histories (TraceLin.tla with CmdBPop of KsList.tla)."""
+    tool = ks.build_tool("blockpop")
+    d = common.scratch("bp-")
+    path = os.path.join(d, "bp.ndjson")
+    p = subprocess.run([tool, "-seed", str(seed), "-rounds", "2" if tier == "quick" else "12", "-out", path], stdout=subprocess.PIPE, stderr=subprocess.PIPE, text=True, timeout=600)
+    if p.returncode != 0:
+        common.die_infra("blockpop failed: " + p.stderr[-1500:])
+    summ = None
+    for line in p.stdout.splitlines():
+        if line.startswith("SUMMARY "):
+            summ = json.loads(line[8:])
+        elif line.startswith("{"):
+            a = json.loads(line)
+            v.report({"branch": "blocking." + a["scenario"], "kind": a["kind"], "detail": ""}, a, what="blocking pop scenario %s: %s" % (a["scenario"], a["detail"]))
+    nonlin, states = conc.validate_hist(path)
+    for n in nonlin:
+        hist = conc.history_of(path, n["h"])
+        v.report({"branch": "blocking.lin", "kind": "non-linearizable", "detail": ""}, {"history": hist, "failing_response": n},
+                 what="blocking-pop history %d is not linearizable (element lost, duplicated or delivered out of order)\n  %s" % (n["h"], "\n  ".join(hist)))
+    cov["blocking_pop"] = dict(summ, histories_checked_by_tlc=summ["scenarios"], tlc_states=states)
+    cov["traces_validated_against_impl"] += summ["scenarios"]
+
 LIST_LABELS = ("lpush", "rpush", "lpop", "rpop", "llen", "lindex", "lrange", "lset", "lrem", "ltrim", "lpos", "lmove", "blpop", "brpop")
 ks.family_check(
     "C09", tier,
@@ -12,4 +39,4 @@ ks.family_check(
         "B1 exhaustive within the instance bounds (2 lists, elements {a,b}, length <= 3/4); B2 sampled",
         "blocking pops (BLPOP/BRPOP) are checked on the real clock by check C09's blocking scenarios (harness/cmd/blockpop)"],
     b2_progs=400 if tier == "quick" else 6000,
-    label_filter=lambda b: b.split(".")[0] in LIST_LABELS)
+    label_filter=lambda b: b.split(".")[0] in LIST_LABELS, extra=blocking)
